@@ -183,3 +183,45 @@ contract(Contract(
     canaries=[("        if isinstance(element, inline.RawText):\n", "        if True:\n", None, ["post[only_rawtext"]),
               ("element.children = rewrite_func(element.children)", "element.children = rewrite_func(element.children.strip())", None, ["post[only_rawtext"])],
 ))
+
+
+# --------------------------------------------------------------------------- transform_tree
+CODE_CLASSES = ("'marko.block.FencedCode', 'marko.block.CodeBlock', 'marko.inline.CodeSpan', 'marko.block.HTMLBlock', "
+                "'marko.inline.InlineHTML', 'marko.block.LinkRefDef', 'marko.inline.AutoLink', 'marko.inline.Image'")
+
+
+def _each_child_once(ex):
+    it = [e for e in ex.log[ex.iter_log_start:] if e[0] == "RECURSE"]
+    if len(it) != 1:
+        return False
+    env = ex.envs[0]
+    child = ex.list_get(env["_it0"], ex.z(env["_i"]) - 1)
+    return ex.b(ex.truth(ex.eq(it[0][1]["element"], child)))
+
+
+contract(Contract(
+    target=M + ":transform_tree",
+    props=["C04", "C08", "C09", "C12"],
+    params={"element": "ref:Element", "transformer": "callable"},
+    heap={"RawTextEl.children": "str"},
+    types={"current_children": "list[ref:Element]", "child": "ref:Element"},
+    calls={
+        "Element.children": Callee("attrfn", handler=children_attr),
+        "transformer": Callee("effect", ret="none", effect="APPLY", sig=["element"]),
+        "transform_tree": Callee("effect", ret="none", effect="RECURSE", sig=["element", "transformer"]),
+    },
+    loops={0: Loop(inv={}, body_ensures={"each_child_once": Clause(_each_child_once)})},
+    at_call={"transform_tree": {
+        # C04: the traversal never enters a node that holds literal content (code block / code span text, raw HTML, link
+        # definitions, autolinks, images): their RawText children are out of reach of every rewrite.  (Checked at every
+        # recursive call, i.e. inside the loop: effects of loop iterations are not visible to a postcondition.)
+        "never_descends_into_literal_nodes": "not isinst(element, %s)" % CODE_CLASSES,
+    }},
+    ensures={
+        "applied_to_element_once": "logcount('APPLY') == 1 and logarg('APPLY', 'element') == element",
+    },
+    canaries=[
+        ("    if isinstance(element, ContainerElement):\n", "    if not isinstance(element, inline.RawText):\n", None, ["never_descends"]),
+        ("    transformer(element)\n", "", None, ["post[applied_to_element_once"]),
+    ],
+))
